@@ -21,6 +21,7 @@ import json
 import math
 import struct
 
+import zlib
 import common
 import floatref
 import pyfacts
@@ -67,9 +68,21 @@ GRAY_LO = 4096
 
 ENGINE = factory.YaqlFactory().create()
 BASE_CTX = yaql.create_context()
-EXPR_BIN = {op: ENGINE('$a %s $b' % op) for op in BIN_OPS}
-EXPR_UN = {op: ENGINE('%s $a' % op) for op in UN_OPS}
-EXPR_DIVID = ENGINE('($a / $b) * $b + ($a mod $b) = $a')
+ALT = {}          # id(statement with $a / $b) -> the same expression over other ways of handing the operands over
+
+
+def _stmt(text):
+    st = ENGINE(text)
+    ALT[id(st)] = dict(doc=ENGINE(text.replace('$a', '$.a').replace('$b', '$.b')),
+                       lst=ENGINE(text.replace('$a', '$[0]').replace('$b', '$[1]')),
+                       iface=text.replace('$a', '$1').replace('$b', '$2'))
+    return st
+
+
+EXPR_BIN = {op: _stmt('$a %s $b' % op) for op in BIN_OPS}
+EXPR_UN = {op: _stmt('%s $a' % op) for op in UN_OPS}
+EXPR_DIVID = _stmt('($a / $b) * $b + ($a mod $b) = $a')
+PATH_HIST = {}
 
 
 def generate():
@@ -180,11 +193,26 @@ def make_corpus(rng, n_random):
 # ------------------------------------------------------------------ the real engine
 
 def real_eval(expr, a, b=None):
+    """the operands are bound as variables - or arrive inside ONE data document (dict / list, through input conversion)
+    or as the arguments of one YaqlInterface call; the path is a function of the operands, so a case replays exactly"""
     ctx = BASE_CTX.create_child_context()
-    ctx['a'] = a
-    ctx['b'] = b
+    alt = ALT.get(id(expr))
+    how = 'vars'
+    if alt is not None:
+        how = ('vars', 'vars', 'doc', 'lst', 'iface')[zlib.crc32(repr((a, b)).encode('utf8', 'replace')) % 5]
+    PATH_HIST[how] = PATH_HIST.get(how, 0) + 1
     try:
-        r = expr.evaluate(context=ctx)
+        if how == 'doc':
+            r = alt['doc'].evaluate(data={'a': a, 'b': b}, context=ctx)
+        elif how == 'lst':
+            r = alt['lst'].evaluate(data=[a, b], context=ctx)
+        elif how == 'iface':
+            from yaql import yaql_interface
+            r = yaql_interface.YaqlInterface(ctx, ENGINE)(alt['iface'], a, b)
+        else:
+            ctx['a'] = a
+            ctx['b'] = b
+            r = expr.evaluate(context=ctx)
     except yexc.NoMatchingFunctionException:
         return NOMATCH
     except Exception as e:          # ZeroDivisionError, OverflowError, MemoryError, any other class
